@@ -192,6 +192,20 @@ Example combine_refuted_F5 :
   /\ ~ 3 # 2 == calc [(10, 1 # 10)] 5 + calc [(0, 2 # 10)] 5.
 Proof. split; vm_compute; [reflexivity|discriminate]. Qed.
 
+(** OPEN finding F34 (known_findings.json, coinciding-thresholds): the hypothesis "strictly
+    increasing" cannot be dropped.  On [(0,1/8); (10,1/4); (10,1/2); (50,3/4)] (what
+    multiply_thresholds(0.01, decimals=0) makes of thresholds 0, 1000, 1040, 5000) the loop
+    of add_bracket calls hits the first of the two brackets at 10 twice and the second
+    never: the base 30 is taxed 16.25 instead of 11.25 + 15 = 26.25.  The implementation
+    does the same (correspondence). *)
+Example combine_adds_taxes_refuted_duplicates :
+  let s := [(0, 1 # 8); (10, 1 # 4); (10, 1 # 2); (50, 3 # 4)] in
+  let o := [(0, 1 # 2)] in
+  calc (add_tax_scale s o) 30 == 65 # 4
+  /\ calc s 30 + calc o 30 == 105 # 4
+  /\ ~ calc (add_tax_scale s o) 30 == calc s 30 + calc o 30.
+Proof. vm_compute. repeat split; try reflexivity. discriminate. Qed.
+
 (** empty receiver *)
 Example combine_empty_receiver_ex :
   map (fun tr => (Qred (fst tr), Qred (snd tr))) (add_tax_scale [] sB) = sB
